@@ -237,6 +237,7 @@ func init() {
 		ruleKindList(prog, rep, func(fd *ast.FuncDecl) bool { return twinScope(fd) == "C05" }, 10)
 		ruleResultAlias(prog, rep, "jp")
 		ruleFullRange(prog, rep, 3, "jp")
+		ruleArgConsist(prog, rep, 20, "jp")
 	}
 	rules["C11"] = func(prog *Program, rep *Report) {
 		rep.Explain("C11 decides sibling clauses across evaluators and representations: the cells of Get, FirstFound, Has, GetNodes and FirstNode keep the index-selection fingerprints they share today across containers and across evaluators (e.g. Has and FirstFound select indexes identically for slices). Not covered: correctness of the shared skeleton, reflection lookup semantics, Locate/Walk normalised paths.")
@@ -252,6 +253,7 @@ func init() {
 		rulePushPair(prog, rep, func(fd *ast.FuncDecl) bool { return twinScope(fd) != "C13" }, 10) // C11 is stated against Get, so Get's own copies count here too
 		ruleKindList(prog, rep, func(fd *ast.FuncDecl) bool { return twinScope(fd) != "C13" }, 40)
 		ruleFullRange(prog, rep, 3, "jp")
+		ruleArgConsist(prog, rep, 20, "jp") // the copies of one evaluator for the container types call their helpers with the same arguments
 	}
 	rules["C13"] = func(prog *Program, rep *Report) {
 		rep.Explain("C13 decides sibling clauses of the mutators: the cells of set and modify keep the index-selection fingerprints they share across []any, gen.Array and Indexed (and map, gen.Object, Keyed): bound normalisation, guards such as 0 <= i && i < LEN, loop bounds, and the labelled break that stops the *One forms after the first change. The known divergence of modify/remove from Get on the slice end bound (inclusive) is pinned by jp/remove_test.go and recorded in KNOWN_FINDINGS.txt. Not covered: the frame condition on values, Set's created structure.")
@@ -268,6 +270,7 @@ func init() {
 		rulePresenceByNil(prog, rep)
 		ruleIndexLE(prog, rep, "jp")
 		ruleFullRange(prog, rep, 3, "jp")
+		ruleArgConsist(prog, rep, 20, "jp")
 		ruleFlagConsist(prog, rep, 1, "jp") // the *One entries hand "stop after the first change" to the shared worker in every branch
 	}
 }
